@@ -93,7 +93,7 @@ Proof.
   destruct (length (x :: d') <=? length rest)%nat; [reflexivity|]. now rewrite IH.
 Qed.
 
-(* ------------------------------------------------------------------ sessions of the unicast, multicast and labelled IP families *)
+(* ------------------------------------------------------------------ sessions of the IP families *)
 
 Definition plain_family (f : Z * Z) : bool :=
   ((fst f =? 1) || (fst f =? 2)) && ((snd f =? 1) || (snd f =? 2) || (snd f =? 4)).
@@ -113,6 +113,32 @@ Proof.
   apply orb_prop in Ha. apply orb_prop in Hs. split.
   - destruct Ha as [Ha|Ha]; apply Z.eqb_eq in Ha; auto.
   - destruct Hs as [Hs|Hs]; [apply orb_prop in Hs; destruct Hs as [Hs|Hs]|]; apply Z.eqb_eq in Hs; auto.
+Qed.
+
+(* sessions of the eight IP families: the mpls-vpn ones included *)
+Definition ip_family (f : Z * Z) : bool :=
+  ((fst f =? 1) || (fst f =? 2)) && ((snd f =? 1) || (snd f =? 2) || (snd f =? 4) || (snd f =? 128)).
+Definition ip_sess (s : sess) : Prop := forallb ip_family (s_fams s) = true.
+
+Lemma plain_ip s : plain_sess s -> ip_sess s.
+Proof.
+  unfold plain_sess, ip_sess. intros H. rewrite forallb_forall in *. intros f Hf. specialize (H f Hf).
+  unfold plain_family in H. unfold ip_family. apply andb_prop in H as [Ha Hs]. rewrite Ha, Hs. reflexivity.
+Qed.
+
+Lemma fam_in_ip s afi safi : ip_sess s -> fam_in (s_fams s) afi safi = true -> ip_family (afi, safi) = true.
+Proof.
+  unfold ip_sess, fam_in. intros Hp H. apply existsb_exists in H as ([a b] & Hin & E).
+  rewrite forallb_forall in Hp. specialize (Hp _ Hin). cbn [fst snd] in E.
+  apply andb_prop in E as [E1 E2]. apply Z.eqb_eq in E1, E2. now subst.
+Qed.
+
+Lemma ip_cases afi safi : ip_family (afi, safi) = true ->
+  (afi = 1 \/ afi = 2) /\ (plain_family (afi, safi) = true \/ safi = 128).
+Proof.
+  unfold ip_family, plain_family. cbn [fst snd]. intros H. apply andb_prop in H as [Ha Hs]. split.
+  - apply orb_prop in Ha. destruct Ha as [Ha|Ha]; apply Z.eqb_eq in Ha; auto.
+  - rewrite Ha. cbn [andb]. apply orb_prop in Hs. destruct Hs as [Hs|Hs]; [left; exact Hs|right; now apply Z.eqb_eq].
 Qed.
 
 Lemma extnh_rule : EXTNH_PER_FAMILY = true.
@@ -143,10 +169,11 @@ Proof.
 Qed.
 
 Lemma mp_reach_agree s v rts :
-  plain_sess s -> mp_reach unpack_nlri (rs_of s) v = Some rts ->
+  plain_family (rd16 v, nth 2 v 0) = true -> mp_reach unpack_nlri (rs_of s) v = Some rts ->
   dec_mp_reach s v = VOk (VBytes v) /\ mp_reach_routes s v = Some rts.
 Proof.
-  intros Hp H. destruct v as [|a1 [|a0 [|safi [|nhl rest]]]]; try discriminate.
+  intros Hpf H. destruct v as [|a1 [|a0 [|safi [|nhl rest]]]]; try discriminate.
+  unfold rd16 in Hpf. cbn [nth] in Hpf.
   unfold mp_reach in H. remember (a1 * 256 + a0) as afi eqn:Eafi.
   change (has_fam (rs_fams (rs_of s)) afi safi) with (fam_in (s_fams s) afi safi) in H.
   change (has_fam (rs_extnh (rs_of s)) afi safi) with (fam_in (s_extnh s) afi safi) in H.
@@ -154,7 +181,7 @@ Proof.
   destruct (fam_in (s_fams s) afi safi) eqn:Ef; [|discriminate]. cbn [negb] in H.
   destruct (nh_len_ok afi safi (fam_in (s_extnh s) afi safi) nhl) eqn:Enh; [|discriminate]. cbn [negb] in H.
   destruct (blen rest <? nhl + 1) eqn:Eb; [discriminate|]. apply Z.ltb_ge in Eb.
-  pose proof (fam_in_plain s afi safi Hp Ef) as Hpl.
+  assert (Hpl : plain_family (afi, safi) = true) by exact Hpf.
   destruct (plain_cases afi safi Hpl) as [Ha Hs].
   assert (Hrd : (if safi =? 128 then 8%nat else 0%nat) = 0%nat) by (destruct Hs as [-> | [-> | ->]]; reflexivity).
   rewrite Hrd in H. cbn [firstn forallb negb skipn] in H.
@@ -185,6 +212,92 @@ Proof.
     cbn [nth]. rewrite <- Eafi, Hfs.
     rewrite Z.sub_0_r, Z.add_0_r.
     change (Z.to_nat 4) with 4%nat. rewrite !skipn4. cbn [skipn]. rewrite Enl. exact H.
+Qed.
+
+(* the mpls-vpn families: an 8-octet zero route distinguisher in front of the next hop (RFC 4364 / 4659) *)
+Lemma zeros_sum l : forallb (Z.eqb 0) l = true -> sumz l = 0.
+Proof.
+  unfold sumz. induction l as [|x l IH]; cbn [forallb fold_right]; [reflexivity|]. intros H. apply andb_prop in H as [Hx Hl].
+  apply Z.eqb_eq in Hx. rewrite IH by exact Hl. lia.
+Qed.
+
+Lemma vpn_nh_table s afi nhl :
+  (afi = 1 \/ afi = 2) -> nh_len_ok afi 128 (fam_in (s_extnh s) afi 128) nhl = true ->
+  (nhl = 12 \/ nhl = 24 \/ nhl = 48)
+  /\ exists lens0, family_size afi 128 = Some (lens0, 8)
+     /\ zin nhl (lens0 ++ (if fam_in (s_extnh s) afi 128
+                           then match family_size 2 128 with Some (l, _) => l | None => [] end else [])) = true.
+Proof.
+  intros Ha Enh. unfold nh_len_ok in Enh.
+  destruct Ha as [-> | ->]; cbn [Z.eqb Pos.eqb] in Enh;
+  destruct (fam_in (s_extnh s) _ _); cbn [andb orb] in Enh;
+  repeat match type of Enh with
+  | _ || _ = true => apply orb_prop in Enh; destruct Enh as [Enh|Enh]
+  | false = true => discriminate
+  end; apply Z.eqb_eq in Enh; subst nhl; (split; [auto|]); eexists; (split; [reflexivity|reflexivity]).
+Qed.
+
+Lemma mp_reach_agree_vpn s v rts :
+  (rd16 v = 1 \/ rd16 v = 2) -> nth 2 v 0 = 128 -> mp_reach unpack_nlri (rs_of s) v = Some rts ->
+  dec_mp_reach s v = VOk (VBytes v) /\ mp_reach_routes s v = Some rts.
+Proof.
+  intros Ha Hsf H. destruct v as [|a1 [|a0 [|safi [|nhl rest]]]]; try discriminate.
+  unfold rd16 in Ha. cbn [nth] in Ha, Hsf. subst safi.
+  unfold mp_reach in H. remember (a1 * 256 + a0) as afi eqn:Eafi.
+  change (has_fam (rs_fams (rs_of s)) afi 128) with (fam_in (s_fams s) afi 128) in H.
+  change (has_fam (rs_extnh (rs_of s)) afi 128) with (fam_in (s_extnh s) afi 128) in H.
+  change (has_fam (rs_addpath (rs_of s)) afi 128) with (fam_in (s_addpath s) afi 128) in H.
+  destruct (fam_in (s_fams s) afi 128) eqn:Ef; [|discriminate]. cbn [negb] in H.
+  destruct (nh_len_ok afi 128 (fam_in (s_extnh s) afi 128) nhl) eqn:Enh; [|discriminate]. cbn [negb] in H.
+  destruct (blen rest <? nhl + 1) eqn:Eb; [discriminate|]. apply Z.ltb_ge in Eb.
+  change (if 128 =? 128 then 8%nat else 0%nat) with 8%nat in H.
+  destruct (forallb (Z.eqb 0) (firstn 8 (firstn (Z.to_nat nhl) rest))) eqn:Ez; [|discriminate]. cbn [negb] in H.
+  destruct (nth (Z.to_nat nhl) rest 1 =? 0) eqn:Er; [|discriminate]. cbn [negb] in H.
+  destruct (skipn (Z.to_nat nhl + 1) rest) as [|y nl] eqn:Enl; [discriminate|].
+  rewrite routes_loop in H.
+  destruct (vpn_nh_table s afi nhl Ha Enh) as (Hnh & lens0 & Hfs & Hzin).
+  assert (Hn0 : 12 <= nhl) by lia.
+  assert (Hlen : (Z.to_nat nhl + 1 < length rest)%nat).
+  { assert (Hx : length (skipn (Z.to_nat nhl + 1) rest) <> 0%nat) by (rewrite Enl; discriminate).
+    rewrite skipn_length in Hx. lia. }
+  assert (Hzl : zlen (a1 :: a0 :: 128 :: nhl :: rest) = 4 + zlen rest) by (unfold zlen; cbn [length]; lia).
+  assert (Hzr : Z.of_nat (Z.to_nat nhl + 1) < zlen rest) by (unfold zlen; lia).
+  assert (Hres : nth (Z.to_nat nhl) rest 0 = 0).
+  { rewrite (nth_indep rest 0 1) by lia. now apply Z.eqb_eq. }
+  assert (Hrd0 : sumz (firstn 8 rest) = 0).
+  { apply zeros_sum. rewrite firstn_firstn in Ez. replace (Nat.min 8 (Z.to_nat nhl)) with 8%nat in Ez by lia. exact Ez. }
+  split.
+  - unfold dec_mp_reach. rewrite Hzl.
+    change (nth 3 (a1 :: a0 :: 128 :: nhl :: rest) 0) with nhl.
+    replace (Z.to_nat (4 + nhl)) with (S (S (S (S (Z.to_nat nhl))))) by lia. rewrite nth4, Hres.
+    cbn [nth]. rewrite <- Eafi, Ef, Hfs, extnh_rule, Hzin. cbn [negb].
+    change (skipn 4 (a1 :: a0 :: 128 :: nhl :: rest)) with rest. rewrite Hrd0.
+    assert (E1 : (4 + zlen rest <? 5) = false) by (apply Z.ltb_ge; lia).
+    assert (E2 : (4 + zlen rest <? 4 + nhl + 1) = false) by (apply Z.ltb_ge; lia).
+    assert (E3 : (4 + zlen rest <=? 4 + nhl + 1) = false) by (apply Z.leb_gt; lia).
+    rewrite E1, E2, E3. reflexivity.
+  - unfold mp_reach_routes, rd16.
+    change (nth 3 (a1 :: a0 :: 128 :: nhl :: rest) 0) with nhl.
+    replace (Z.to_nat (4 + nhl + 1)) with (S (S (S (S (Z.to_nat nhl + 1))))) by lia.
+    cbn [nth]. rewrite <- Eafi, Hfs.
+    replace (Z.to_nat (4 + 8)) with (S (S (S (S 8)))) by reflexivity.
+    rewrite !skipn4. rewrite Enl.
+    replace (Z.to_nat (nhl - 8)) with (Z.to_nat nhl - 8)%nat by lia.
+    rewrite <- skipn_firstn_comm. exact H.
+Qed.
+
+Lemma mp_reach_agree_ip s v rts :
+  ip_sess s -> mp_reach unpack_nlri (rs_of s) v = Some rts ->
+  dec_mp_reach s v = VOk (VBytes v) /\ mp_reach_routes s v = Some rts.
+Proof.
+  intros Hp H.
+  assert (Hf : fam_in (s_fams s) (rd16 v) (nth 2 v 0) = true).
+  { destruct v as [|a1 [|a0 [|safi [|nhl rest]]]]; try discriminate. unfold mp_reach in H.
+    change (has_fam (rs_fams (rs_of s)) (a1 * 256 + a0) safi) with (fam_in (s_fams s) (a1 * 256 + a0) safi) in H.
+    unfold rd16. cbn [nth]. destruct (fam_in (s_fams s) (a1 * 256 + a0) safi); [reflexivity|discriminate]. }
+  destruct (ip_cases _ _ (fam_in_ip s _ _ Hp Hf)) as [Ha [Hpl|H128]].
+  - exact (mp_reach_agree s v rts Hpl H).
+  - exact (mp_reach_agree_vpn s v rts Ha H128 H).
 Qed.
 
 (* ------------------------------------------------------------------ MP_UNREACH_NLRI *)
@@ -225,7 +338,7 @@ Definition mp_ok (s : sess) (r : raw) : bool :=
   true.
 
 Lemma step_wellformed_all opq s other m r :
-  plain_sess s ->
+  ip_sess s ->
   attr_wellformed other (rs_of s) r = true -> modelled r = true -> mp_ok s r = true ->
   0 <= r_code r < 256 -> ahas m (r_code r) = false ->
   exists m', step true opq s (r_flags r) (r_code r) (zlen (r_val r)) (r_val r) m = SCont m'
@@ -290,7 +403,7 @@ Proof.
   - (* MP_REACH_NLRI *)
     cbn [Z.eqb Pos.eqb] in Hmp.
     destruct (mp_reach unpack_nlri (rs_of s) v) as [rts|] eqn:Er; [|discriminate].
-    destruct (mp_reach_agree s v rts Hp Er) as [Hd _].
+    destruct (mp_reach_agree_ip s v rts Hp Er) as [Hd _].
     change (unpack_value true opq s 14 (zlen v) v) with (dec_mp_reach s v). rewrite Hd.
     assert (zlen v =? 0 = false) as ->.
     { destruct v; [discriminate|]. apply Z.eqb_neq. unfold zlen. cbn [length]. lia. }
@@ -307,7 +420,7 @@ Qed.
 
 (* ------------------------------------------------------------------ the whole attribute block *)
 
-Lemma attrs_agree_full opq s other : plain_sess s -> forall fuel d l m,
+Lemma attrs_agree_full opq s other : ip_sess s -> forall fuel d l m,
   wfb d -> tlvs fuel d = Some l ->
   forallb (attr_wellformed other (rs_of s)) l = true -> forallb modelled l = true -> forallb (mp_ok s) l = true ->
   nodup_codes l = true ->
